@@ -476,6 +476,8 @@ class Boss:
     S3_closing.upon(_got_phase, enter=S3_closing, outputs=[])
     S3_closing.upon(_got_version, enter=S3_closing, outputs=[])
     S3_closing.upon(_got_dilate, enter=S3_closing, outputs=[])
+    S3_closing.upon(got_code, enter=S3_closing, outputs=[])
+    S3_closing.upon(got_key, enter=S3_closing, outputs=[])
     S3_closing.upon(happy, enter=S3_closing, outputs=[])
     S3_closing.upon(scared, enter=S3_closing, outputs=[])
     S3_closing.upon(close, enter=S3_closing, outputs=[])
@@ -488,6 +490,8 @@ class Boss:
     S4_closed.upon(_got_phase, enter=S4_closed, outputs=[])
     S4_closed.upon(_got_version, enter=S4_closed, outputs=[])
     S4_closed.upon(_got_dilate, enter=S4_closed, outputs=[])
+    S4_closed.upon(got_code, enter=S4_closed, outputs=[])
+    S4_closed.upon(got_key, enter=S4_closed, outputs=[])
     S4_closed.upon(happy, enter=S4_closed, outputs=[])
     S4_closed.upon(scared, enter=S4_closed, outputs=[])
     S4_closed.upon(close, enter=S4_closed, outputs=[])
